@@ -54,7 +54,9 @@ def handle : List String → Option String
       let ops ← if ops == "!" then some [] else (ops.splitOn "/").mapM parseSizeOp
       let (ws, hs, fw, fh) := ops.foldl (fun (ws, hs, fw, fh) (k, i, v) =>
         if k == "w" then let ws' := setSize ws i v; (ws', hs, sumL ws', fh)
-        else let hs' := setSize hs i v; (ws, hs', fw, sumL hs')) (ws, hs, w, h)
+        else if k == "h" then let hs' := setSize hs i v; (ws, hs', fw, sumL hs')
+        else if k == "W" then (ws, hs, v, fh)         -- the caller resizes the graphic frame itself
+        else (ws, hs, fw, v)) (ws, hs, w, h)
       pure s!"{encIntList ws} {encIntList hs} {fw} {fh}"
   | _ => none
 end Pptx.Drv.C14
